@@ -521,7 +521,7 @@ fn exec(case: &[String], out: &mut Out) {
 	}
 }
 
-/// the whole case as one op line (`replay <ops joined by ';', blanks as '_'> :: <comment>`), so that
+/// the whole case as one op line (`replay <ops joined by '~', blanks as '_'> :: <comment>`), so that
 /// an oracle failure carries its own replay; both the harness and the twin execute such a line by
 /// running the encoded case from a fresh state and printing its last trace line
 pub fn replay_of(case: &[String]) -> String {
@@ -530,12 +530,12 @@ pub fn replay_of(case: &[String]) -> String {
 		.filter(|l| !l.starts_with("replay "))
 		.map(|l| l.replace(' ', "_"))
 		.collect();
-	format!("replay {} ::", body.join(";"))
+	format!("replay {} ::", body.join("~"))
 }
 pub fn decode_replay(line: &str) -> Vec<String> {
 	let enc = line.split_whitespace().nth(1).unwrap_or("");
 	let mut v = vec!["case replay".to_string()];
-	v.extend(enc.split(';').filter(|o| !o.is_empty()).map(|o| o.replace('_', " ")));
+	v.extend(enc.split('~').filter(|o| !o.is_empty()).map(|o| o.replace('_', " ")));
 	v
 }
 
@@ -670,11 +670,11 @@ fn oracles(s: &mut Sys, case: &[String], out: &mut Out) {
 				}
 				// first chunk whose increment is nearer to the new speed than to the old one
 				let kobs = (tw.set_chunk..n).find(|&k| {
-					// before the first chunk every clock is at 0
+					// before the first chunk, and before it is in the arena, a clock is at 0
 					let a = if k == 0 {
 						Some(0.0)
 					} else {
-						s.chunks[k - 1].items.get(tw.target_res).and_then(clock_val)
+						Some(s.chunks[k - 1].items.get(tw.target_res).and_then(clock_val).unwrap_or(0.0))
 					};
 					let b = s.chunks[k].items.get(tw.target_res).and_then(clock_val);
 					match (a, b) {
